@@ -23,16 +23,29 @@ Proof.
   unfold wf_layers. rewrite andb_true_iff, forallb_forall. intros [H1 H2]. split; [now apply nodup_paths_spec|exact H2].
 Qed.
 
+(* ------------------------------------------------------------------ no installation *)
+Definition set_up (c : cfgT) (w : wobs) : bool :=
+  base_set_up c (wo_fs w) && check_inheritance (layers_on_disk c (wo_fs w)).
+
+Lemma C03_not_set_up c w e um n all : plain_env e = true -> set_up c w = false ->
+  C03.step_spec c w (view_of_model c w e (CUmount n all) um) = true.
+Proof.
+  intros He Hn.
+  pose proof (run_not_set_up e c um (CUmount n all) (world_of w) eq_refl Hn) as R.
+  rewrite (view_of_run _ _ _ _ _ _ _ R). unfold C03.step_spec. cbn [v_cmd v_env]. rewrite He. cbn [negb].
+  unfold set_up in Hn. rewrite Hn. cbn [negb]. apply unchanged_refl; reflexivity.
+Qed.
+
 (* ------------------------------------------------------------------ (a) neither layer nor -all *)
 Theorem C03_noargs_proof : forall c w e um, plain_env e = true -> wf_table (ks_tab (wo_ks w)) = true ->
   C03.step_spec c w (view_of_model c w e (CUmount [] false) um) = true.
 Proof.
-  intros c w e um He Hwf.
+  intros c w e um He Hwf. destruct (set_up c w) eqn:Epre; [|now apply C03_not_set_up].
   assert (R : run e c um (CUmount [] false) (world_of w) = (Fail, s0_of (world_of w))).
   { destruct (run_cases e c um (CUmount [] false) (world_of w) eq_refl Hwf) as [R|o _ _ _ R]; [exact R|].
     rewrite R. reflexivity. }
   rewrite (view_of_run _ _ _ _ _ _ _ R). unfold C03.step_spec. cbn [v_cmd v_env v_res v_log v_after s0_of s_log rev].
-  rewrite He. cbn [negb rclass_of rclass_beq andb syscalls filter].
+  rewrite He. unfold set_up in Epre. rewrite Epre. cbn [negb rclass_of rclass_beq andb syscalls filter].
   rewrite unchanged_refl; reflexivity.
 Qed.
 
@@ -43,13 +56,13 @@ Definition single_ok (c : cfgT) (w : wobs) (x : layer) (res : rclass) (log : lis
   && C03.frame [bld] (ks_tab (wo_ks w)) (ks_tab ks')
   && match res with ROk => negb (any_at_or_under (ks_tab ks') bld) | _ => true end.
 
-Lemma step_spec_single c w e um a r res log f' ks' lay : plain_env e = true ->
+Lemma step_spec_single c w e um a r res log f' ks' lay : plain_env e = true -> set_up c w = true ->
   C03.step_spec c w (MkV e (CUmount (a :: r) false) um res log (MkWO f' ks') lay) =
   match lm_get (layers_on_disk c (wo_fs w)) (a :: r) with
   | None => true
   | Some x => single_ok c w x res log ks'
   end.
-Proof. intros He. unfold C03.step_spec. cbn [v_cmd v_env]. rewrite He. reflexivity. Qed.
+Proof. intros He Hs. unfold C03.step_spec. cbn [v_cmd v_env]. rewrite He. unfold set_up in Hs. rewrite Hs. reflexivity. Qed.
 
 Lemma st_after_nil e s : st_after e s (w_ks (s_w s)) [] = s.
 Proof. destruct s as [[f k] n lg]. reflexivity. Qed.
@@ -122,8 +135,9 @@ Proof.
   intros c w e um a r He Hk Hl.
   destruct (wf_kernel_spec _ Hk) as [Hwf ND]. destruct (wf_layers_spec _ _ Hl) as [NDn Hgood].
   pose proof (plain_env_plain e He) as Hp.
+  destruct (set_up c w) eqn:Epre; [|now apply C03_not_set_up].
   destruct (run e c um (CUmount (a :: r) false) (world_of w)) as [o st] eqn:R.
-  rewrite (view_of_run _ _ _ _ _ _ _ R). rewrite step_spec_single by exact He.
+  rewrite (view_of_run _ _ _ _ _ _ _ R). rewrite step_spec_single by assumption.
   destruct (lm_get (layers_on_disk c (wo_fs w)) (a :: r)) as [x|] eqn:Ex; [|reflexivity].
   assert (Hnochange : (o, st) = (Fail, s0_of (world_of w)) ->
             single_ok c w x (rclass_of o) (rev (s_log st)) (w_ks (s_w st)) = true).
@@ -137,13 +151,11 @@ Proof.
     as (HF & _ & _).
   { intros y Hy. eapply Permutation_in; [symmetry; apply normalize_perm; exact Hn|]. now apply in_map. }
   set (ld := probe_pure c um (wo_fs w) (ks_tab (wo_ks w)) m ord) in *.
-  destruct (forall2_get _ _ _ _ _ HF (known_name c _ um) Ex) as (l & Hgl & (Hs & Ho & Herr & Hne)).
+  destruct (forall2_get _ _ _ _ _ HF (known_name c _ um) Ex) as (l & Hgl & (Hs & Ho & K & _)).
   destruct (lm_get_name _ _ _ Ex) as [_ Hxin].
   destruct (unmount_single_post e c ld a r (s0_of (world_of w)) x l Hp Hwf ND Hgl (Hgood x Hxin))
     as (o1 & ks' & iss & U & L & D & Hok).
-  { destruct (N.eq_dec (l_state x) st_error) as [E|E].
-    - left. now destruct (Herr E) as (_ & K & _).
-    - right. now destruct (Hne E) as (K & _). }
+  { right. exact K. }
   cbn [cmd_body] in R'. rewrite U in R'. rewrite R' in R.
   assert (Est : st = st_after e (s0_of (world_of w)) ks' iss /\ rclass_of o = rclass_of o1).
   { destruct o1; cbn [omap] in R; injection R as <- <-; split; reflexivity. }
